@@ -5,10 +5,12 @@ ROOT = os.path.dirname(os.path.dirname(os.path.abspath(__file__)))
 import importlib, sys
 sys.path.insert(0, os.path.join(ROOT, "tools"))
 CHECKS = {}
+# only properties listed in tools/claimed.txt are claimed (a check is listed once it passes on the unchanged tree)
+CLAIMED = set(open(os.path.join(ROOT, 'tools', 'claimed.txt')).read().split())
 for f in sorted(os.listdir(os.path.join(ROOT, "tools", "props"))):
     if f.startswith("c") and f.endswith(".py"):
         m = importlib.import_module("props." + f[:-3])
-        if getattr(m, "MANIFEST", None):
+        if getattr(m, "MANIFEST", None) and f[:-3].upper() in CLAIMED:
             CHECKS[f[:-3].upper()] = m.MANIFEST
 NOT_YET = {}
 ALL = ["C%02d" % i for i in range(1, 21)]
